@@ -475,6 +475,28 @@ pub fn run(ctx: &mut Ctx) {
             idx += ctx.nshards as u64;
         }
     }
+    // single tokens longer than 64 KiB followed by multi-byte content; diagnostics with more than 7 labels; a byte order mark
+    {
+        let long = "x".repeat(70_000);
+        let mut big: Vec<String> = vec![
+            format!("Mix [- {long} -] thé @sél{{1%g}}(né) wéll.\n\n~{{5}} thén @bake{{}}.\n"),
+            format!("-- {long}\nThén @baké{{1%kg}} it ~é(x).\n"),
+            format!("{long} thén @baké{{}} it ~é(x).\n"),
+            format!("a{}b @é{{1/0}}\n", " ".repeat(70_000)),
+            (0..12).map(|i| format!(">> kéy{i}: valué {i}\n")).collect::<String>() + "\nstép @a{1}\n",
+        ];
+        for doc in ["---\ntitle: Pancakes é\nservings: 4\n---\nMix thé @flour and the @milk in a #bowl.\n\nFry ~{5}\n", ">> k: v\nstép @a{1/0}\n", "stép ~é(x)\n"] {
+            big.push(format!("{}{doc}", '\u{feff}'));
+        }
+        for (bi, doc) in big.iter().enumerate() {
+            for (e, c) in cfgs {
+                if ctx.mine(bi as u64) {
+                    check_case(ctx, &mut ps, &Case::new("long_tokens_many_labels_bom", doc.as_str(), e, c));
+                    ctx.count("inputs_long_tokens_many_labels_bom");
+                }
+            }
+        }
+    }
     for seed in &seeds {
         let mut variants = vec![seed.clone()];
         multibyte_sweep(seed, |s| variants.push(s));
